@@ -65,6 +65,11 @@ func C19(r *h.Run) {
 						inner := total - outer
 						var handleCalls []int
 						var log []string
+						plainHandle := (vi+pos+len(kind))%2 == 1
+						wantCode := "data_loss"
+						if plainHandle {
+							wantCode = "unknown"
+						}
 						handle := func(_ context.Context, _ connect.Spec, _ http.Header, rv any) error {
 							cls := 5
 							switch x := rv.(type) {
@@ -86,6 +91,11 @@ func C19(r *h.Run) {
 								cls = 4
 							}
 							handleCalls = append(handleCalls, cls)
+							if plainHandle {
+								// an uncoded error: the client must see it as it would see the same
+								// error returned by a handler that did not panic (code unknown)
+								return fmt.Errorf("recovered-%d", cls)
+							}
 							return connect.NewError(connect.CodeDataLoss, fmt.Errorf("recovered-%d", cls))
 						}
 						var hopts []connect.HandlerOption
@@ -163,7 +173,7 @@ func C19(r *h.Run) {
 						req.Header.Set("Content-Type", ct)
 						rec := httptest.NewRecorder()
 						propagated := safely(func() { handler.ServeHTTP(rec, req) })
-						in := map[string]any{"proto": proto, "kind": kind, "panic_point": point, "panic_class": v.class, "outer": outer, "inner": inner}
+						in := map[string]any{"proto": proto, "kind": kind, "panic_point": point, "panic_class": v.class, "outer": outer, "inner": inner, "recovery_function_returns": wantCode}
 						r.Eval("recover", fmt.Sprint(in))
 						obs := "RNormal"
 						// what the peer sees
@@ -210,7 +220,7 @@ func C19(r *h.Run) {
 								r.Fail(h.Failure{Key: "recover/panic-escaped", Family: "recover", What: "the panic escaped ServeHTTP", Input: in, Actual: fmt.Sprint(propagated)})
 							} else if len(handleCalls) != 1 || handleCalls[0] != v.class {
 								r.Fail(h.Failure{Key: "recover/handle-calls", Family: "recover", What: "the recovery function was not called exactly once with the recovered value", Input: in, Actual: handleCalls})
-							} else if peerCode != "data_loss" || peerMsg != fmt.Sprintf("recovered-%d", v.class) {
+							} else if peerCode != wantCode || peerMsg != fmt.Sprintf("recovered-%d", v.class) {
 								r.Fail(h.Failure{Key: "recover/client-error", Family: "recover", What: "the client did not receive the error the recovery function returned", Input: in, Actual: peerCode + ": " + peerMsg})
 							}
 						}
